@@ -445,6 +445,28 @@ def fam_combinators(g, prefix, n_random):
         out.append(case("%s-%d" % (prefix, i), steps)); i += 1
     return out
 
+def fam_ready_set_go(g, prefix, n_random):
+    """utils::ready_set_go: subscribe first, then run the action — no event of the action is lost, through every operator"""
+    out = []
+    i = 0
+    ops = dict(g.ops_int()); ops.update(g.ops_final())
+    scripts = [[n_(1), n_(2), C_], [n_(1), e_(5), n_(2)], [C_], [n_(3), n_(1), n_(2)], [n_(1), C_, n_(2)]]
+    def acts(evs, name="a"):
+        return [(["hnext", name, e[1]] if e[0] == "n" else ["herror", name, e[1]]) if isinstance(e, list) else ["hcomplete", name] for e in evs]
+    for kind in ("plain", "behavior", "replay"):
+        init = ["0"] if kind == "behavior" else []
+        for name in sorted(ops) + ["none"]:
+            g.tag = 0
+            evs = g.r.choice(scripts)
+            p = ops[name](["ref", "a"]) if name != "none" else ["ref", "a"]
+            out.append(case("%s-%d" % (prefix, i), [["subject", "a", kind] + init, ["sub", ["rsg", acts(evs), p], NOREACT], ["hnext", "a", "9"]])); i += 1
+    for c in ("merge", "zip", "amb", "concat", "take_until", "skip_until", "sample"):
+        g.tag = 0
+        p = g.combine_named(c, ["ref", "a"], [["ref", "b"]], hot=("a", "b"))
+        mixed = [["hnext", "a", "1"], ["hnext", "b", "2"], ["hnext", "a", "3"], ["hcomplete", "a"], ["hnext", "b", "4"], ["hcomplete", "b"]]
+        out.append(case("%s-%d" % (prefix, i), [["subject", "a", "plain"], ["subject", "b", "plain"], ["sub", ["rsg", mixed, p], NOREACT]])); i += 1
+    return out
+
 def fam_malformed(g, prefix, n_random):
     """every operator over ill-formed sources (events after a terminal, both terminals)"""
     out = []
